@@ -321,6 +321,118 @@ def moments_cir(ctx, run, res):
                          file=str(ctx.prog.modules[fi.module].path), line=fi.node.lineno))
 
 
+def cir_variance_nonnegative(ctx, run, res, rule="C11.R8"):
+    """Non-negativity of the quadratic-exponential variance step is inductive: from V_i >= 0 (and kappa, theta, sigma, dt > 0) follow
+    m >= 0 and s2 >= 0, the quadratic branch a (b + Z)^2 is >= 0 wherever it is selected (psi <= PSI_CRIT <= 2 keeps b real), and the
+    exponential branch log((1-p)/(1-u))/beta is >= 0 on its region u > p (0 elsewhere).  Tolerance clamps (EPSILON) are identities here.
+    Decided with sympy's assumption system after the substitutions e^{-kappa dt} = 1/(1+q), psi = 2/(1+r), psi = 1+w, u = p + (1-p)/(1+q2)."""
+    q = S + "cir.generate_cir"
+    fi = ctx.prog.functions[q]
+    r = [r for r in res if not r["raises"]][0]
+    steps = step_of(r["value"])
+    if len(steps) != 1 or not (isinstance(steps[0][2], Op) and steps[0][2].op == "where"):
+        raise AnalysisError("generate_cir: expected one time loop storing where(psi <= PSI_CRIT, quadratic, exponential)")
+    elem, carried, step, init, _ = steps[0]
+    cond, next0, next1 = step.args
+    hooks = [column_hook(elem, carried)]
+    xs = sp.Symbol("x", nonnegative=True)
+    ts = ToSympy(hooks=hooks, assume_positive=POS - {"x"}, symbols={"x": xs})
+    k, th, sg, dt = [ts.sym(n) for n in ("kappa", "theta", "sigma", "dt")]
+    ex = sp.exp(-k * dt)
+    qq = sp.Symbol("q", positive=True)
+    point = {xs: sp.Rational(3, 100), k: 2, th: sp.Rational(1, 25), sg: sp.Rational(1, 5), dt: sp.Rational(1, 250)}
+
+    def nonneg(e):
+        for f_ in (lambda v: v, sp.expand, sp.factor, lambda v: sp.factor(sp.together(v))):
+            try:
+                v = f_(e)
+            except Exception:
+                continue
+            if v.is_nonnegative:
+                return True
+            n_, d_ = sp.fraction(sp.together(v))
+            if sp.expand(n_).is_nonnegative and sp.expand(d_).is_positive:
+                return True
+        return False
+
+    problems = []
+    # the sub-terms the step is built from: the first operand of the branch condition is psi = s2 / m^2
+    cands = []
+    for sub in walk(step):
+        if isinstance(sub, Op) and sub.op in ("add", "sub", "mul", "div"):
+            try:
+                e = ts.conv(sub)
+            except Exception:
+                continue
+            if e.free_symbols - set(point):
+                continue
+            cands.append((sub, e))
+    # m is read off the code: psi = s2 / m^2 (the first operand of the branch condition), whatever m is - C10.R3 decides whether it is
+    # the exact conditional mean; here only its sign matters
+    psi_t = cond.args[0] if isinstance(cond, Op) and cond.args else None
+    t_m = None
+    if isinstance(psi_t, Op) and psi_t.op == "div":
+        den = psi_t.args[1]
+        while isinstance(den, Op) and den.op in ("clamp", "clamp_min", "relu", "to") and den.args:
+            den = den.args[0]
+        if isinstance(den, Op) and den.op == "square":
+            t_m = den.args[0]
+    if t_m is None:
+        raise AnalysisError("generate_cir: psi is not of the form s2 / m^2, cannot locate the conditional mean")
+    m_q = ts.conv(t_m).subs(ex, 1 / (1 + qq))
+    ok_m = nonneg(m_q)
+    if not ok_m:
+        problems.append(f"m = {sp.simplify(m_q)} is not certified >= 0 for V_i >= 0")
+    c = ts.conv(cond)
+    psi_e = c.args[0]
+    s2_e = None
+    t_psi = next((sub for sub, e in cands if sp.simplify(e - psi_e) == 0), None)
+    M, PSI = sp.Symbol("M", positive=True), sp.Symbol("PSI", positive=True)
+
+    def named(ts_, t):
+        if t_psi is not None and t == t_psi:
+            return PSI
+        if t == t_m:
+            return M
+        return None
+
+    ts2 = ToSympy(hooks=[named] + hooks, assume_positive=POS - {"x"}, symbols={"x": xs})
+    c2 = ts2.conv(cond)
+    crit = c2.args[1] if c2.args[0] == PSI else None
+    if crit is None or not (c2.func in (sp.Le, sp.Lt) and bool(crit <= 2)):
+        problems.append(f"branch condition {c2}: the quadratic branch must be confined to psi <= 2 (b is real only there)")
+    # quadratic branch on psi in (0, 2]
+    rr = sp.Symbol("r", nonnegative=True)
+    e0 = ts2.conv(next0).subs(PSI, 2 / (1 + rr))
+    ok0 = nonneg(sp.simplify(e0)) or nonneg(e0)
+    if not ok0:
+        problems.append(f"quadratic branch {sp.simplify(e0)} is not certified >= 0")
+    # exponential branch on its own region
+    e1 = ts2.conv(next1)
+    ok1 = False
+    if isinstance(e1, sp.Piecewise) and len(e1.args) == 2 and e1.args[1][0] == 0:
+        val, cnd = e1.args[0]
+        p_expr = cnd.args[1] if cnd.args[0] == u else cnd.args[0]
+        above = (cnd.func in (sp.Gt, sp.Ge)) == (cnd.args[0] == u)
+        ww, q2 = sp.Symbol("w", positive=True), sp.Symbol("q2", positive=True)
+        pw = sp.cancel(p_expr.subs(PSI, 1 + ww))
+        if not (pw.is_positive and (1 - pw).is_positive is not False and sp.cancel(1 - pw).is_positive):
+            problems.append(f"p = {pw} is not in (0, 1) for psi > 1")
+        u_sub = pw + (1 - pw) / (1 + q2) if above else pw / (1 + q2)
+        v1 = val.subs(PSI, 1 + ww).subs(u, u_sub)
+        v1 = v1.replace(sp.log, lambda a: sp.log(sp.cancel(sp.together(a))))
+        ok1 = nonneg(v1)
+        if not ok1:
+            problems.append(f"exponential branch {sp.simplify(v1)} is not certified >= 0 on its region")
+    else:
+        problems.append("exponential branch is not of the form where(u > p, value, 0)")
+    ok = not problems
+    run.oblige(rule, "generate_cir: V_i >= 0 implies V_{i+1} >= 0 in both branches of the quadratic-exponential step", ok, "; ".join(problems) or "m >= 0; a(b+Z)^2 >= 0 on psi <= 2; log((1-p)/(1-u))/beta >= 0 on u > p")
+    if not ok:
+        run.fail(Finding(rule, q, "; ".join(problems)[:300], "the variance process can become negative (and volatility = sqrt(clamp(variance, 0)) silently hides it)",
+                         file=str(ctx.prog.modules[fi.module].path), line=fi.node.lineno))
+
+
 def moments_local_vol(ctx, run, res):
     q = S + "local_volatility.generate_local_volatility_process"
     fi = ctx.prog.functions[q]
